@@ -385,6 +385,15 @@ func (a *TA) Setup() {
 	*a = T{} // E-ALIAS-METHOD-CTOR-RECV
 }
 
+// not a constructor: overwriting the receiver is reported however the receiver type is spelled
+func (a *TA) Overwrite(o T) {
+	*a = o // E-ALIAS-RECV-SET
+}
+
+func (t *T) OverwriteDirect(o T) {
+	*t = o // E-DIRECT-RECV-SET
+}
+
 // a defined pointer type: q.N stands for (*q).N
 type NP *T
 
@@ -449,6 +458,8 @@ func ZZC01Edge() {
 		{f, nd.LineOf(src, "E-MUT-SECOND-INC"), "IMM03", nd.And(immT, nd.Not(nd.HasPrefix(mutAB, " @mutable")))},
 		{f, nd.LineOf(src, "E-OTHER-METHOD-NAMED-LIKE-CTOR"), "IMM01", immT},
 		// E-METHOD-CTOR, E-ALIAS-METHOD-CTOR(-RECV): a listed method of the type itself is a constructor, however its receiver is spelled
+		{f, nd.LineOf(src, "E-ALIAS-RECV-SET"), "IMM01", immT},
+		{f, nd.LineOf(src, "E-DIRECT-RECV-SET"), "IMM01", immT},
 		{f, nd.LineOf(src, "E-DEFPTR-ASSIGN"), "IMM01", immT},
 		{f, nd.LineOf(src, "E-DEFPTR-INC"), "IMM03", immT},
 		{f, nd.LineOf(src, "E-DEFPTR-COMPOUND"), "IMM02", immT},
